@@ -7,11 +7,16 @@
    and C03_limit_refuses hold for every codec meeting the two interface hypotheses
    `detect_enc` (header 2..5 bytes, need-more before it is complete, then total length
    and type) and `decode_enc` (C01 round trip), stated as premises; the Examples
-   instantiate them with Stream/ToyCodec.v. *)
+   instantiate them with Stream/ToyCodec.v.
+   The …_codec theorems (Stream/StreamCodec.v) discharge both premises for the REAL codec —
+   enc = WireSpec.wire_spec (what Encode / Encoder.Write put on the wire, C01_layout and
+   C01_wire_exact), good = WF.wf, detect = Stream.detect_impl, decode = codec_decode
+   (Type.New + Dec.decode_go, by C01_roundtrip) — and carry no codec hypothesis. *)
 From Coq Require Import List NArith Bool.
 From Coq.Strings Require Import Byte.
 From GM Require Import Codec.Packet Stream.Stream Stream.StreamSpec Stream.StreamProofs Stream.FramesProofs
   Stream.EncStream Stream.EncStreamProofs Stream.WsStream Stream.WsStreamProofs Stream.ToyCodec.
+From GM Require Import Codec.WF Codec.WireSpec Stream.StreamCodec.
 Import ListNotations.
 Open Scope N_scope.
 
@@ -125,6 +130,71 @@ Theorem C03_ws_decode : forall detect decode lim sizes ms e cs x e',
 Proof. exact ws_decode. Qed.
 Print Assumptions C03_ws_decode.
 
+(* ---------------------------------------------------------------- the real codec: no codec hypotheses *)
+
+(* the two interface premises hold for the real codec: every well-formed packet has a fixed
+   header of h = 1 + (1..4) bytes on which DetectPacket answers need-more / (total, type), … *)
+Theorem C03_codec_detect : forall p, wf p = true ->
+  exists h, 2 <= h /\ h <= 5 /\ h <= len (wire_spec p) /\
+    forall k, 2 <= k -> k <= h ->
+      detect_impl (takeN k (wire_spec p)) =
+      if k <? h then DetNeedMore else DetLen (len (wire_spec p)) (type_code (ptype_of p)).
+Proof. exact codec_detect_enc. Qed.
+Print Assumptions C03_codec_detect.
+
+(* … and New() + Decode on its bytes gives the packet back *)
+Theorem C03_codec_decode : forall p, wf p = true ->
+  codec_decode (type_code (ptype_of p)) (wire_spec p) = Some p.
+Proof. exact codec_decode_enc. Qed.
+Print Assumptions C03_codec_decode.
+
+(* every list of well-formed packets that fit the limit, encoded, concatenated and cut into
+   chunks in ANY way, decodes to exactly those packets with exactly their byte ranges, one
+   allocation request of the packet's size each, then the end of the source *)
+Theorem C03_frames_codec : forall lim ps cs e,
+  Forall (fun p => wf p = true) ps -> Forall (fits wire_spec lim) ps ->
+  concat cs = concat (map wire_spec ps) ->
+  let a := dec_all detect_impl codec_decode lim cs e in
+  a_frames a = map (frame_of wire_spec) ps /\ a_err a = end_err e 0 /\
+  a_allocs a = map (alloc_of wire_spec) ps.
+Proof. exact frames_codec. Qed.
+Print Assumptions C03_frames_codec.
+
+(* the stream ends j bytes into a well-formed packet: the complete packets, then
+   ErrUnexpectedEOF (resp. EOF for j = 0, or the source's own error) *)
+Theorem C03_truncation_codec : forall lim ps p j cs e,
+  Forall (fun p => wf p = true) (p :: ps) -> Forall (fits wire_spec lim) (p :: ps) ->
+  j < len (wire_spec p) ->
+  concat cs = concat (map wire_spec ps) ++ takeN j (wire_spec p) ->
+  let a := dec_all detect_impl codec_decode lim cs e in
+  a_frames a = map (frame_of wire_spec) ps /\ a_err a = end_err e j.
+Proof. exact truncation_codec. Qed.
+Print Assumptions C03_truncation_codec.
+
+(* a well-formed packet longer than the limit is refused on its header alone (no allocation
+   request, at most 5 bytes peeked), whatever follows it *)
+Theorem C03_limit_refuses_codec : forall lim ps p rest cs e,
+  Forall (fun p => wf p = true) (p :: ps) -> Forall (fits wire_spec lim) ps ->
+  0 < lim -> lim < len (wire_spec p) ->
+  concat cs = concat (map wire_spec ps) ++ wire_spec p ++ rest ->
+  let a := dec_all detect_impl codec_decode lim cs e in
+  a_frames a = map (frame_of wire_spec) ps /\ a_err a = EReadLimit /\
+  a_allocs a = map (alloc_of wire_spec) ps /\ a_peeked a <= 5.
+Proof. exact limit_refuses_codec. Qed.
+Print Assumptions C03_limit_refuses_codec.
+
+(* behind a WebSocket: binary messages carrying a concatenation of encodings, split over
+   messages in any way and read with any buffer sizes, decode to exactly those packets *)
+Theorem C03_ws_decode_codec : forall lim sizes ms e cs x e' ps,
+  ws_read_all sizes (ws_init ms e) = (cs, Some x) ->
+  Forall (fun p => wf p = true) ps -> Forall (fits wire_spec lim) ps ->
+  ws_bytes ms = concat (map wire_spec ps) ->
+  let a := dec_all detect_impl codec_decode lim cs e' in
+  a_frames a = map (frame_of wire_spec) ps /\ a_err a = end_err e' 0 /\
+  a_allocs a = map (alloc_of wire_spec) ps.
+Proof. exact ws_frames_codec. Qed.
+Print Assumptions C03_ws_decode_codec.
+
 (* ---------------------------------------------------------------- non-vacuity *)
 
 (* the interface hypotheses are met by a concrete codec (headers of 2 and of 3 bytes) *)
@@ -164,3 +234,22 @@ Example C03_ws_example :
   ws_read_all [4096; 1; 4096; 4096; 4096] (ws_init [WM true [x40; x02]; WM true []; WM true [x00; x07; xc0]; WM false [x41]] SEof)
   = ([[x40; x02]; [x00]; [x07; xc0]], Some WNotBinary).
 Proof. vm_compute. reflexivity. Qed.
+
+(* the real codec: a CONNECT, a PUBLISH with a 200-byte payload (2-byte remaining length) and a
+   PINGREQ; cut after 1 byte, inside the PUBLISH header, inside its payload and across packets *)
+Definition real_connect : packet := Connect (Conn [x63; x31] 30 [x75] [x70] true (Some (Msg [x77] [x21] 1 false)) 4).
+Definition real_publish : packet := Publish false (Msg [x61; x2f; x62] (repeat x5a (N.to_nat 200)) 1 true) 258.
+Definition real_packets : list packet := [real_connect; real_publish; Pingreq].
+
+Example C03_real_codec_example :
+  let stream := concat (map wire_spec real_packets) in
+  let cs := [takeN 1 stream; takeN 29 (dropN 1 stream); takeN 100 (dropN 30 stream); dropN 130 stream] in
+  let a := dec_all detect_impl codec_decode 0 cs SEof in
+  let b := dec_all detect_impl codec_decode 100 [takeN 30 stream; dropN 30 stream] SEof in
+  let c := dec_all detect_impl codec_decode 0 [takeN 100 stream] SEof in
+  forallb wf real_packets = true /\ map len (map wire_spec real_packets) = [28; 210; 2] /\
+  (map snd (a_frames a) = real_packets /\ map fst (a_frames a) = map wire_spec real_packets /\
+   a_err a = EEof /\ a_allocs a = [28; 210; 2]) /\
+  (map snd (a_frames b) = [real_connect] /\ a_err b = EReadLimit /\ a_allocs b = [28] /\ a_peeked b = 3) /\
+  (map snd (a_frames c) = [real_connect] /\ a_err c = EUnexpectedEof).
+Proof. vm_compute. repeat split. Qed.
